@@ -336,7 +336,7 @@ PROPS = {
                 'or copies differing only in external labels / in a non-job secret / in the assignment); the written file is loaded with '
                 'config.Load and projected like the input; non-job sections are compared as generic documents and as loaded structs; the file '
                 'is searched for every job secret. non-trivial = >= 1 job; distinct by input || sidecar engine, wired as cmd/kvass/sidecar.go wires the binary: the REAL injector is the first update callback of the targets manager and the reload callback of the configuration manager (a restart makes a new one; configuration before or after the stored assignment, alternating); after every operation the generated file is loaded as Prometheus would and must list, per job, exactly the hashes the model holds (updates that repeat, empty, drop whole jobs, fail in a later callback; restarts)',
-        'theorems': 'C11_jobs C11_names C11_job_fields C11_static_entry C11_no_job_secret C11_rest C11_sections_kept',
+        'theorems': 'C11_jobs C11_names C11_job_fields C11_static_entry C11_no_job_secret C11_rest C11_sections_kept C11_generated_file_lists_the_assignment C11_generated_file_after_update',
         'trusted_base': ['Model/Inject.v hand-written from injector.go at the granularity of the property: ingestion-relevant settings, relabeling and TLS '
                          'are opaque fingerprints computed by the same Go projection on input and output; tie = exact equality of the projected job list '
                          'with the model\'s, on the real injector, after histories',
